@@ -128,6 +128,8 @@ def worker(job):
                 res["forged_rejected"] += 1
             else:
                 bad = ("odd-outcome:" + fc, "forged (%s) then genuine: got %s, forged serial %s genuine %s" % (fc, repr(out)[:120], fs, gs))
+        if len(res.setdefault("samples", [])) < 2 and ci % 45 == 5:
+            res["samples"].append({"cfg": cfg.key(), "forged": c, "forgery_class": fc or "legitimate", "forged_serial": fs, "genuine_serial": gs, "get_returned": repr(out)[:120]})
         if bad and len(res["bad"]) < 400:
             res["bad"].append({"sig": bad[0], "msg": "[%s] %s" % (cfg.key(), bad[1]), "case": c, "cfgkey": cfg.key()})
         if out[0] == "exc":
@@ -164,7 +166,6 @@ def main():
         random.Random(a.seed + ci).shuffle(cases)
         reps = 1 if a.tier == "quick" else 4
         jobs.append({"seed": a.seed * 100 + ci, "cfg": cfg.to_json(), "cases": cases * reps})
-    chk.sample({"forged": {"mac": "zero", "auth_flag": 1, "body": "GetResponse"}, "then": "genuine reply", "allowed": "only the genuine serial"})
     outs = runner.run_workers("checks.c10", "worker", jobs, variant="rel", timeout=3000)
     st = {"cases": 0, "legit_accepted": 0, "forged_rejected": 0, "reports": 0}
     for o in outs:
@@ -182,6 +183,8 @@ def main():
             chk.inconc(x)
         for k in st:
             st[k] += res[k]
+        for x in res.get("samples", [])[:1]:
+            chk.sample(x, limit=5)
         for c in res["classes"]:
             chk.distinct.add("%s|%s" % ("/".join(cfgkey.split("/")[1:3]), c))
         for b in res["bad"]:
